@@ -207,6 +207,12 @@ def fresh_like(I, v, deep_seen=None):
         return SSet.fresh(v.kkind, 'h')
     if isinstance(v, (FuncVal, Builtin, ClassVal, ModuleVal, ExcClass)):
         return v
+    if isinstance(v, SObj):
+        # a rebound local holding an object: a fresh object of the same class with fresh attribute values
+        r = SObj(v.cls, v.mod)
+        for k, x in v.attrs.items():
+            r.attrs[k] = fresh_like(I, x)
+        return r
     raise Unsupported(f'cannot havoc a value of type {type(v).__name__}')
 
 
